@@ -56,12 +56,18 @@ pub fn gen_keys(rng: &mut Rng, n: usize, subdirs: bool) -> Vec<String> {
     let dirs = ["", "", "", "d1", "d2", "d1/e1", "d11"];
     for i in 0..n {
         let dir = if subdirs { *rng.pick(&dirs) } else { "" };
-        let name = format!("n{}", i + 1);
-        keys.push(if dir.is_empty() {
-            name
+        // sometimes the same file name exists in two directories (different notes, different titles)
+        let name = if subdirs && i > 0 && rng.chance(1, 6) {
+            format!("n{}", rng.range(1, i))
         } else {
-            format!("{}/{}", dir, name)
-        });
+            format!("n{}", i + 1)
+        };
+        let key = if dir.is_empty() { name } else { format!("{}/{}", dir, name) };
+        if keys.contains(&key) {
+            keys.push(format!("{}x{}", key, i + 1));
+        } else {
+            keys.push(key);
+        }
     }
     keys
 }
